@@ -123,3 +123,13 @@ reg("C31", "model_checking",
     "TLC explores all interleavings of 2-3 threads on distinct and shared lanes, with slot and bucket growth triggered at once, 2-3 values and duplicates (about 300k states quick, 2.8M thorough): same value <=> same index, decode(encode(v)) = v, one inserter per value, nil never returned, "
     "quiescent iteration lists each value once, deadlock freedom, termination under weak fairness, refinement of InternAbs. Every transition of the 2-thread graphs is replayed on the real container with state compared after each step; every real history must be accepted by InternAbs.",
     COOP_NOTE + " Larger shapes (up to 8 lanes/threads, 600 values) are covered only by trace validation of random and stress runs. An iterator racing with insertions is outside the property text and not judged.", "DESIGN.md 9 C31")
+reg("C25", "model_checking",
+    "TLA+ spec SortedSetAbs checked by TLC; implementation-shaped spec BTreeConc (one action per lock-primitive call site of btree::insert) model-checked over all interleavings and replayed as schedules on the real btree_set; call/return histories of bounded-preemption enumerated, random, PCT and real-thread executions plus a query phase validated by TLC against SortedSetAbs",
+    "BTreeConc covers 2 threads x <=2 keys (thorough: 3 keys and 3 threads) on trees pre-filled to force root creation, leaf/inner/root split, left rebalance, hints and duplicate races, maxKeys 3: nothing lost, each distinct key reports success exactly once, no lock left, termination under weak fairness; "
+    "its walks are replayed on the real tree comparing shape, lock bit and every thread's yield point (0 drift on 72k steps). Every real execution (DFS with <=2/3 preemptions, random, PCT, OpenMP stress with 2-8 threads, node capacity 3 and default) followed by find/contains/bounds/size/iteration/getChunks queries must be accepted by SortedSetAbs.",
+    COOP_NOTE + " Field accesses between two lock primitives are not interleaved; systematic enumeration is limited to 2 threads.", "DESIGN.md 9 C25")
+reg("C26", "model_checking",
+    "Deterministic structural TLA+ spec BTreeSeq (insert and erase case analysis of BTreeDelete.h) enumerated by TLC over keys 1..7 (thorough 1..10); every transition replayed on the real btree_delete_set with shape and result compared; random histories and concurrent-insert executions validated by TLC against SortedSetAbs",
+    "TLC enumerates every reachable (shape, operation) pair of the structural spec (3 497 states, 48 958 transitions, 295 shapes for keys 1..7; ShapeOK and StepOK checked) and a covering tour executes each transition on the real tree (one implementation test per transition); "
+    "seeded random insert/erase/query histories over small and full 32-bit key ranges and the C25 concurrent-insert machinery on BTreeDelete.h are validated against SortedSetAbs; small-node histories are also replayed by TLC on BTreeSeq for depth 3-4.",
+    COOP_NOTE + " Full transition coverage is for maxKeys 3 and depth <= 2; deeper trees and the default block size are covered by seeded random histories only.", "DESIGN.md 9 C26")
